@@ -12,8 +12,7 @@ theorem getD_map_range' (f : Nat → Rat) (n j : Nat) : ((List.range n).map f).g
   split
   · rename_i h; exact getD_map_range f n j h
   · rename_i h
-    rw [List.getD_eq_default]
-    simp; omega
+    rw [List.getD_eq_getElem?_getD, List.getElem?_eq_none (by simp; omega)]; rfl
 
 theorem anti_le_of {S : Nat → Nat → Rat} (hanti : ∀ n j, j + 1 < n → S n (j + 1) ≤ S n j) {n i r : Nat}
     (hir : i ≤ r) (hr : r < n) : S n r ≤ S n i := by
@@ -88,8 +87,7 @@ theorem scorerFn_borda (base : Int) (nC n j : Nat) :
       simp only [Gen.RankScore.borda_scores]
       rw [getD_map_range', if_pos (by omega)]
       push_cast; ring
-    · rw [if_neg (by omega), List.getD_eq_default]
-      rw [selectPadded_length]; omega
+    · rw [if_neg (by omega), List.getD_eq_getElem?_getD, List.getElem?_eq_none (by rw [selectPadded_length]; omega)]; rfl
 
 /-! ### the five scorers -/
 
